@@ -103,8 +103,18 @@ impl Rng {
 
         let mut v = Vec::with_capacity(len);
         if utf8_only {
+            // valid UTF-8 of exactly `len` bytes; one character in five has 2, 3 or 4 bytes, so that characters
+            // straddle buffer boundaries (8 KiB, 64 KiB) in large texts
             const AL: &[u8] = b"abcdefghijklmnopqrstuvwxyz0123456789 \n";
-            for _ in 0..len {
+            const MB: &[&str] = &["\u{e9}", "\u{fc}", "\u{20ac}", "\u{65e5}", "\u{1f980}"];
+            while v.len() < len {
+                if self.below(5) == 0 {
+                    let c = MB[self.below(MB.len())].as_bytes();
+                    if v.len() + c.len() <= len {
+                        v.extend_from_slice(c);
+                        continue;
+                    }
+                }
                 v.push(AL[self.below(AL.len())]);
             }
         } else {
